@@ -222,10 +222,10 @@ def render(template_text, flags=(), canary=False):
                     sections.append(cur)
                 elif t.startswith('//@after ') or t.startswith('//@before '):
                     kind = 'after' if t.startswith('//@after ') else 'before'
-                    m = re.match(r'//@\w+\s+"((?:[^"\\]|\\.)*)"(?:\s+nth=(\d+))?', t)
+                    m = re.match(r'//@\w+\s+"((?:[^"\\]|\\.)*)"(?:\s+nth=(\d+))?(\s+opt)?', t)
                     if not m:
                         raise TemplateError('bad directive: ' + t)
-                    cur = (kind, {'prefix': m.group(1).replace('\\"', '"'), 'nth': int(m.group(2) or 0)}, [])
+                    cur = (kind, {'prefix': m.group(1).replace('\\"', '"'), 'nth': int(m.group(2) or 0), 'opt': bool(m.group(3))}, [])
                     sections.append(cur)
                 elif t.startswith('//@atend'):
                     cur = ('atend', {}, [])
@@ -499,12 +499,14 @@ def _render_fn(g, args, rws, subs, hsubs, sections):
             if a['n'] < 1 or a['n'] > len(loops):
                 raise AnchorLost('fn %s has %d loops, wanted loop %d' % (fname, len(loops), a['n']))
             inserts.append((loops[a['n'] - 1], '\n' + txt))
-        elif kind == 'after':
-            s, e = _stmt_span(body, a['prefix'], a['nth'])
-            inserts.append((e, '\n' + txt))
-        elif kind == 'before':
-            s, e = _stmt_span(body, a['prefix'], a['nth'])
-            inserts.append((s, txt))
+        elif kind in ('after', 'before'):
+            try:
+                s, e = _stmt_span(body, a['prefix'], a['nth'])
+            except AnchorLost:
+                if a.get('opt'):
+                    continue   # optional proof hint: the obligation it helps will fail by itself
+                raise
+            inserts.append((e, '\n' + txt) if kind == 'after' else (s, txt))
         elif kind == 'atend':
             inserts.append((body.rstrip().rfind('}'), '\n' + txt))
     for off, txt in sorted(inserts, key=lambda x: -x[0]):
